@@ -270,7 +270,7 @@ def closed_flag(chk, prog):
             chk.ob("R3.drop_close", f, "the frame sent on drop is a Close", "Close" in _what(d), f"{_what(d)}")
 
 
-def blocking_mode_restored(chk, prog):
+def blocking_mode_restored(chk, prog, rule="R7.blocking_restored"):
     """R7: the probe leaves the socket in blocking mode: once set_nonblocking() succeeded, every return passes set_blocking(),
     and every blocking read (read_exact / from_stream_inner) comes after it."""
     fn = "humphrey_ws::frame::Frame::from_stream_nonblocking"
@@ -291,14 +291,14 @@ def blocking_mode_restored(chk, prog):
         else:
             starts = b.succs(n)
         w = core.must_pass(b, starts, rets, through_nodes=bl, after_from=False)
-        chk.ob("R7.blocking_restored", fn, "set_nonblocking() succeeded -> every return passes set_blocking()", w is None and bool(bl),
+        chk.ob(rule, fn, "set_nonblocking() succeeded -> every return passes set_blocking()", w is None and bool(bl),
                "the probe can return (e.g. `nothing yet`) with the socket still non-blocking: later blocking receives fail with WouldBlock and large sends are cut short mid-frame",
                path=w)
     blocking_reads = [blk for blk, t in b.calls_to(r"Read::read_exact$|frame::Frame::from_stream_inner")]
     chk.floor("blocking reads in the probe", len(blocking_reads), 2)
     for r in blocking_reads:
         w = core.must_pass(b, nb, [r], through_nodes=bl)
-        chk.ob("R7.blocking_restored", fn, f"{b.term(r)['callee'].split('::')[-1]}: the rest of the frame is read in blocking mode", w is None, "", where=b.where(r), path=w)
+        chk.ob(rule, fn, f"{b.term(r)['callee'].split('::')[-1]}: the rest of the frame is read in blocking mode", w is None, "", where=b.where(r), path=w)
 
 
 def run(chk):
